@@ -306,6 +306,28 @@ def evaluation_consumers(P, rep, prefix):
             r = MU.result_edges(b, bb)
             what = hit[0].split("::")[-1]
             if r is None:
+                # handed whole to a helper of the repository that only rewrites the error (`at_line(expr.run(..), line)?` - the value of the
+                # helper is `result.map_err(..)` of that very parameter), whose own result is then propagated with `?`
+                wrapped = False
+                chk = MU.Chaser(b)
+                for bb2, t2, _, tg2 in P.call_sites(k):
+                    for ai, a in enumerate(t2["args"]):
+                        if chk.root(a, through_calls=False)[0] != t["dest"]["local"] or chk.root(a, through_calls=False)[1]:
+                            continue
+                        for g_ in tg2:
+                            gb = P.body.get(g_)
+                            if gb is None or "{closure" in g_:
+                                continue
+                            chg = MU.Chaser(gb)
+                            is_wrapper = any(bl["term"]["k"] == "call" and MU.callee_names(bl["term"])[1] == "std::result::Result::<T, E>::map_err" and
+                                             bl["term"]["dest"]["local"] == 0 and not bl["term"]["dest"]["proj"] and
+                                             chg.root(bl["term"]["args"][0], through_calls=False)[0] == ai + 1 for bl in gb["blocks"])
+                            r2 = MU.result_edges(b, bb2)
+                            if is_wrapper and r2 is not None and r2["how"] == "?":
+                                wrapped = True
+                if wrapped:
+                    rep.ob("%s|%s|%s" % (prefix, k, what), True, "%s hands the result of %s to a helper that rewrites the error only and propagates that with `?`" % (k.split("::")[-1], what), nontrivial=False)
+                    continue
                 # returned as it is (tail call) is fine: the caller's caller decides
                 dest = t["dest"]["local"]
                 tail = dest == 0 or any(st["k"] == "assign" and st["place"]["local"] == 0 and not st["place"]["proj"] and st["rv"]["k"] == "use" and
